@@ -89,7 +89,16 @@ def run(ctx):
         except Exception as e:
             return 'none'
 
-    for d in rng.sample(scalars[17:], 10 if T else 5) + [1, N - 1]:
+    # keys whose HASH begins like a serialised witness program (<version opcode> <length of the rest>): found once by search, the expected
+    # addresses come from the model like all others.  Scripts whose SHA-256 begins that way are searched here (hashing only).
+    HEADER_KEYS = [5353, 7553, 9062, 9709, 17659, 22598, 27042]
+    header_scripts = []
+    while len(header_scripts) < 4:
+        sc_ = bytes(rng.randrange(256) for _ in range(rng.randint(1, 80)))
+        h_ = hashlib.sha256(sc_).digest()
+        if h_[1] == 0x1e and (h_[0] == 0 or 0x51 <= h_[0] <= 0x60):
+            header_scripts.append(sc_)
+    for d in rng.sample(scalars[17:], 10 if T else 5) + [1, N - 1] + (HEADER_KEYS if T else rng.sample(HEADER_KEYS, 2)):
         for net in nets:
             k = Key(d, network=net)
             ku = Key(d, network=net, compressed=False)
@@ -134,7 +143,7 @@ def run(ctx):
                         cases.append(('addr %s base58 %s %s' % (net, 'p2sh_p2wpkh' if arg == 'p2sh_p2wpkh' else 'p2sh', k.public_byte.hex()),
                                       att(lambda: kh.address(prefix=pfx, script_type=arg, encoding='base58')), True))
             # script hashes and taproot output keys
-            script = bytes(rng.randrange(256) for _ in range(rng.randint(1, 80)))
+            script = bytes(rng.randrange(256) for _ in range(rng.randint(1, 80))) if rng.random() < 0.6 else rng.choice(header_scripts)
             cases.append(('addr %s bech32 p2wsh %s' % (net, script.hex()),
                           att(lambda: Address(script, network=net, script_type='p2wsh', encoding='bech32').address), True))
             cases.append(('addr %s base58 p2sh %s' % (net, script.hex()),
@@ -142,6 +151,8 @@ def run(ctx):
             cases.append(('addr %s base58 p2sh_p2wsh %s' % (net, script.hex()),
                           att(lambda: Address(script, network=net, script_type='p2sh_p2wsh', encoding='base58').address), True))
             h32 = bytes(rng.randrange(256) for _ in range(32))
+            if rng.random() < 0.4:
+                h32 = bytes([rng.choice([0x00, 0x51, 0x52, 0x60]), 0x1e]) + h32[2:]
             cases.append(('addr %s bech32 p2tr %s' % (net, h32.hex()),
                           att(lambda: Address(hashed_data=h32, network=net, script_type='p2tr', encoding='bech32').address), True))
             # HD keys per witness type
